@@ -68,7 +68,20 @@ pub fn rand_placed_lib(rng: &mut Rng, max_cells: usize, with_abstracts: bool) ->
         } else {
             name.clone()
         };
-        let mut lay = Layout::new(lay_name, rng.usize(5), rand_outline(rng));
+        // outlines: fresh, or (one time in five) exactly the previous cell's footprint with another number of metals (a wrapper the size of
+        // the cell it wraps, variants of one standard footprint)
+        let (metals, outline) = match (cells.last(), rng.chance(1, 5)) {
+            (Some(prev), true) => {
+                let pc = prev.read().unwrap();
+                let po = pc.layout.as_ref().map(|l| (l.metals, l.outline.clone())).or_else(|| pc.abs.as_ref().map(|a| (a.metals, a.outline.clone())));
+                match po {
+                    Some((m, o)) => ((m + 1 + rng.usize(3)) % 6, o),
+                    None => (rng.usize(5), rand_outline(rng)),
+                }
+            }
+            _ => (rng.usize(5), rand_outline(rng)),
+        };
+        let mut lay = Layout::new(lay_name, metals, outline);
         let mut d = Vec::new();
         if i > 0 {
             for k in 0..rng.usize(5) {
